@@ -55,11 +55,17 @@ def moment_laws(chk, ctx, rng, n):
             chk.fail('mass-law:step', 'mass after step %.12g, law mass - dt*absorbed = %.12g' % (m2, m1 - absorbed), inp)
 
 # ---------------------------------------------------------------- B/C: coalescent convergence
+_EQ = {}
 def sfs_model(dadi, n, epochs, pts_l, tf, log=False, as_func=False, gamma=0.0, h=0.5):
     I = dadi.Integration
     def f(params, ns, pts):
         xx = dadi.Numerics.default_grid(pts)
-        phi = dadi.PhiManip.phi_1D(xx, gamma=gamma, h=h)
+        # the equilibrium density of a grid is computed once and the same array is handed to every history, as a user
+        # scanning histories from a cached starting density does (the integrators must not modify it)
+        key = (id(dadi), pts, gamma, h)
+        if key not in _EQ:
+            _EQ[key] = dadi.PhiManip.phi_1D(xx, gamma=gamma, h=h)
+        phi = _EQ[key]
         for nu, T in epochs:
             if as_func:
                 phi = I.one_pop(phi, xx, T, (lambda t, v=nu: v), gamma=gamma, h=h)
